@@ -47,17 +47,20 @@ TECHNIQUE = ("Lean 4 theorems about the skip-iterator / parse_number model (what
              "I+L+T+C class) + metamorphic check of the implementation (strip, position classifier, insert, separator-free counterpart)")
 LEVEL_TEXT = ("Proved in Lean on the model (Model.Iter + Model.ParseNumber, all inputs): (1) every skip iterator's peek moves only over "
               "separator bytes and parse_digits yields exactly the non-separator bytes of the region it consumed, in order; (2) "
-              "sep_free_same: on inputs without the separator byte a separator format whose integer AND fraction components carry "
-              "separator flags gives the same result (value, count, error kind, index; complete and partial parser, many-digit re-parse "
-              "and 8-digit fast path included) as its separator-free counterpart; the unrestricted statement is refuted by kernel-evaluated "
-              "witnesses for the integer-only / fraction-only / exponent-only / no-flag classes; (3) strip_preserves: for the class where "
+              "sep_free_same: on inputs without the separator byte EVERY valid separator format - separator flags on any components, or a "
+              "separator byte without flags - gives the same result (value, count, error kind, index; complete and partial parser, many-digit re-parse "
+              "and 8-digit fast path included) as its separator-free counterpart; the unrestricted statement sep_free_same_full is now PROVED "
+              "(sep_free_same_full_holds; before /repo 7e8a135 + 12a2453 it was refuted for the integer-only / fraction-only / exponent-only / "
+              "no-flag classes - those kernel-evaluated witnesses are now the regression theorems sep_free_regression_*); "
+              "(3) strip_preserves: for the class where "
               "every component has I+L+T+C (no base prefix/suffix, STANDARD required digits) an input the complete parser accepts as a "
               "number is accepted as the same number after deleting all separators (refuted in general by the I+T+C class witness); (4) "
               "insert_preserves: for the same class, separators inserted anywhere except directly before a sign keep the input accepted "
               "as the same number. R2 is not a theorem (witnesses for I+T+C and I+L+C only). The implementation is checked directly by the metamorphic "
               "relations R1-R4 on exhaustive short and structured long inputs; on the unchanged tree this check reports violation classes.")
 LEVEL_NOTE = ("Trusted: Lean kernel; rustc; harness; the model is tied to the code by correspondence only. The relations are judged on "
-              "implementation results, bounded by the input generators described under `rule`.")
+              "implementation results, bounded by the input generators described under `rule`. strip_preserves / insert_preserves stay "
+              "restricted to the all-I+L+T+C class: mixing skip-everything and no-flag components was not attempted (the I+T+C / I+L+C defects are open).")
 
 SEP = "_"
 
